@@ -35,6 +35,49 @@ fn main() {
                 if t.elapsed().as_secs_f64() > 0.5 { eprintln!("   SLOW {:?}", t.elapsed()); }
             }}}
         }
+        "replay" => {
+            // verif replay <file>: deterministic re-execution of one case, bypassing proptest / libFuzzer
+            let path = args.get(2).cloned().unwrap_or_default();
+            let txt = std::fs::read_to_string(&path).unwrap_or_else(|e| { eprintln!("cannot read {path}: {e}"); std::process::exit(2) });
+            let v: serde_json::Value = serde_json::from_str(&txt).unwrap_or_else(|e| { eprintln!("cannot parse {path}: {e}"); std::process::exit(2) });
+            let prop = v["property"].as_str().unwrap_or("").to_string();
+            let seed = v["seed"].as_u64().unwrap_or(0);
+            report::quiet_panics();
+            let mut ctx = Ctx::new(&prop, "quick", seed);
+            ctx.strict = args.iter().any(|a| a == "--strict");
+            let case = &v["case"];
+            let ok = match case["kind"].as_str().unwrap_or("") {
+                "law" => laws::replay(&ctx, case),
+                "stream" => if prop == "C05" { termination::replay(&ctx, case) } else { streams::replay(&ctx, case) },
+                "exact" => exact::replay(&ctx, case),
+                "ctor" => ctors::replay(&ctx, case),
+                "alias" | "tree" | "tree_sample" => weighted::replay(&ctx, case),
+                other => { eprintln!("no replay handler for case kind '{other}'"); false }
+            };
+            if !ok { std::process::exit(2); }
+            // replay never rewrites evidence: print the verdict only
+            let code = ctx.finish_replay(&path);
+            std::process::exit(code);
+        }
+        "probe" => {
+            // development aid: words consumed with a forced word, over seeds
+            let cell: families::Cell = serde_json::from_str(&args[2]).expect("cell json");
+            let pos: u64 = args[3].parse().unwrap();
+            let word: u64 = u64::from_str_radix(args[4].trim_start_matches("0x"), 16).unwrap();
+            report::quiet_panics();
+            let s = families::build(&cell).expect("build");
+            let mut hist = vec![];
+            for seed in 0..200u64 {
+                let mut rng = rng::VRng::from_env(seed);
+                rng.force(pos, word);
+                rng.begin_call();
+                let r = report::catch(|| s.sample_v(&mut rng));
+                hist.push((rng.call_words, r.map(|v| v.show()).unwrap_or_else(|e| e)));
+            }
+            hist.sort_by_key(|h| h.0);
+            println!("min {:?}\nmedian {:?}\nmax {:?}", hist[0], hist[100], hist[199]);
+            println!("over budget: {}", hist.iter().filter(|h| h.1.starts_with("WORD")).count());
+        }
         "diag" => {
             // verif diag '<cell json>' n : per-edge table (development aid)
             let cell: families::Cell = serde_json::from_str(&args[2]).expect("cell json");
@@ -101,6 +144,10 @@ fn main() {
                 "C10" => {
                     weighted::run_c10(&ctx);
                     ctx.finish("state = tree reached by a generated history (fresh builds and up to 60 random mutations; lengths 1..10^4 incl. non-power-of-two shapes); per state: boundary-lattice words (incl. integer-range boundaries, top/bottom 4096 float mantissas) at positions 0..1 -> no panic / no zero-weight index / InsufficientNonZero iff empty or all-zero; frequency test vs current weights (confirmed on 4n); f32 trees: all 2^23 targets of the float draw enumerated and the induced law compared exactly; non-trivial = >= 2 non-zero weights after >= 1 mutation, or a zero-weight inner node", &ASSUME_LAW, false)
+                }
+                "C05" => {
+                    termination::run(&ctx);
+                    ctx.finish(termination::RULE, &termination::ASSUME, false)
                 }
                 _ => {
                     eprintln!("unknown property {id}");
